@@ -31,7 +31,7 @@ theorem observed_play_call (f : Nat) (c : Contract) (o : Observed) (card : Card)
     rw [h1]
     by_cases hme : s.active = me
     · by_cases hm : card ∈ hand
-      · have h2 := play_card_call (f+8) n_ObservedPlayingPhase ppclass_observed (obsEx me (hand.erase card) dh) c s card hwf
+      · have h2 := play_card_call (f+8) n_ObservedPlayingPhase ppclass_observed (obsEx me (hand.erase card) dh) c s card (fun _ => hwf)
         simp only [obsEx, ppObj, baseFields, List.cons_append, List.nil_append, encCards] at h2
         ppsimp [mth_pp_play_card, mth_pp_check_has, if_pos hme, check_has_call, hm, removeFirst_encCard]
         rw [h2]
@@ -47,7 +47,7 @@ theorem observed_play_call (f : Nat) (c : Contract) (o : Observed) (card : Card)
         | some dl =>
           by_cases hm : card ∈ dl
           · have h2 := play_card_call (f+8) n_ObservedPlayingPhase ppclass_observed
-              (obsEx me hand (some (dl.erase card))) c s card hwf
+              (obsEx me hand (some (dl.erase card))) c s card (fun _ => hwf)
             simp only [obsEx, ppObj, baseFields, List.cons_append, List.nil_append, encCards, encOpt] at h2
             ppsimp [mth_pp_play_card, mth_pp_check_has, if_neg hme, if_pos hdu, check_has_call, hm, removeFirst_encCard,
               beq_tuple_none, encCards]
@@ -57,7 +57,7 @@ theorem observed_play_call (f : Nat) (c : Contract) (o : Observed) (card : Card)
           · ppsimp [mth_pp_play_card, mth_pp_check_has, if_neg hme, if_pos hdu, check_has_call, hm, beq_tuple_none, encCards]
             simp only [Observed.play, ne_eq, not_true_eq_false, if_false, if_neg hme, if_pos hdu, hm, not_false_eq_true,
               if_true]
-      · have h2 := play_card_call (f+8) n_ObservedPlayingPhase ppclass_observed (obsEx me hand dh) c s card hwf
+      · have h2 := play_card_call (f+8) n_ObservedPlayingPhase ppclass_observed (obsEx me hand dh) c s card (fun _ => hwf)
         simp only [obsEx, ppObj, baseFields, List.cons_append, List.nil_append, encCards] at h2
         ppsimp [mth_pp_play_card, mth_pp_check_has, if_neg hme, if_neg hdu]
         rw [h2]
@@ -67,5 +67,60 @@ theorem observed_play_call (f : Nat) (c : Contract) (o : Observed) (card : Card)
     ppsimp [mth_pp_check_active, mth_pp_play_card]
     rw [h1]
     ppsimp [Observed.play, h]
+
+theorem set_dummy_call (f : Nat) (c : Contract) (o : Observed) (dl : List Card) :
+    callF (mkRec P (f+10)) m_ObservedPlayingPhase_set_dummy_hand [encObserved c o, encCards dl]
+      = .ok (.none, encObserved c (o.setDummy dl)) := by
+  rw [callF_def]
+  simp only [m_ObservedPlayingPhase_set_dummy_hand, bindParams, Option.map, encObserved, baseFields, Observed.setDummy]
+  ppsimp []
+
+theorem observed_init_call (f : Nat) (c : Contract) (me : Seat) (hand : List Card) :
+    callF (mkRec P (f+50)) m_ObservedPlayingPhase___init__
+        [.obj n_ObservedPlayingPhase [], encContract c, encSeat me, encCards hand] =
+      match c.finalBid, c.declarer with
+      | none, _ => .error (.exc K.Exception)
+      | some _, none => .error (.exc K.AssertionError)
+      | some b, some d => .ok (.none, encObserved c ⟨initState b d, me, hand, none⟩) := by
+  rw [callF_def]
+  simp only [m_ObservedPlayingPhase___init__, bindParams, Option.map]
+  ppsimp [mth_pp_init, init_call]
+  cases c.finalBid with
+  | none => ppsimp []
+  | some b =>
+    cases c.declarer with
+    | none => ppsimp []
+    | some d => ppsimp [ppObj, baseFields, encObserved]
+
+theorem observed_available_call (f : Nat) (c : Contract) (o : Observed) :
+    callF (mkRec P (f+30)) m_ObservedPlayingPhase_current_available_cards_in_hand [encObserved c o]
+      = .ok (encCards (o.base.currentAvailable o.hand), encObserved c o) := by
+  rw [callF_def]
+  simp only [m_ObservedPlayingPhase_current_available_cards_in_hand, bindParams, Option.map]
+  obtain ⟨s, me, hand, dh⟩ := o
+  have h1 := current_available_call (f+7) n_ObservedPlayingPhase (obsEx me hand dh) c s hand
+  simp only [encObserved, obsEx, ppObj, baseFields, List.cons_append, List.nil_append] at h1 ⊢
+  ppsimp [mth_pp_current_available]
+  rw [h1]
+  ppsimp []
+
+theorem observed_available_dummy_call (f : Nat) (c : Contract) (o : Observed) :
+    callF (mkRec P (f+30)) m_ObservedPlayingPhase_current_available_cards_in_dummy_hand [encObserved c o]
+      = match o.dummyHand with
+        | none => .error (.exc K.Exception)
+        | some dl => .ok (encCards (o.base.currentAvailable dl), encObserved c o) := by
+  rw [callF_def]
+  simp only [m_ObservedPlayingPhase_current_available_cards_in_dummy_hand, bindParams, Option.map]
+  obtain ⟨s, me, hand, dh⟩ := o
+  cases dh with
+  | none =>
+    simp only [encObserved, baseFields, List.cons_append, List.nil_append]
+    ppsimp []
+  | some dl =>
+    have h1 := current_available_call (f+7) n_ObservedPlayingPhase (obsEx me hand (some dl)) c s dl
+    simp only [encObserved, obsEx, ppObj, baseFields, List.cons_append, List.nil_append, encOpt] at h1 ⊢
+    ppsimp [mth_pp_current_available, beq_encCards_none]
+    rw [h1]
+    ppsimp []
 
 end Bridge.Translated
